@@ -24,6 +24,9 @@ func ParseRange(in string, opts ...RangeOptions) (*Range, error) {
 		bound = regexp.MustCompile(`[^a-zA-Z0-9 ]+`).ReplaceAllString(bound, "")
 		ch[i] = bound
 	}
+	if len(ch) < 2 {
+		return nil, fmt.Errorf("invalid range %q: expected a start and a stop block", in)
+	}
 	lo, err := strconv.ParseInt(ch[0], 10, 64)
 	if err != nil {
 		return nil, fmt.Errorf("invalid start block: %w", err)
